@@ -511,10 +511,10 @@ func (q *Query) eval(o EvalOpts, ctes map[string]*Result, cteQ map[string]*Query
 	}
 	// ORDER BY
 	if len(q.OrderBy) > 0 {
-		sorted := make([]Row, len(out))
-		copy(sorted, out)
-		sort.SliceStable(sorted, func(i, j int) bool { return CompareKeys(sorted[i], sorted[j], q.OrderBy) < 0 })
-		out = sorted
+		// Ties are ordered by the whole row: any order of ties is legitimate, and this is the one
+		// octosql's btree produces, so an order-sensitive consumer above (a float sum) sees the
+		// rows in the same order in the reference as in the engine.
+		out = SortRows(out, q.OrderBy)
 	}
 	res.Full = out
 	res.Rows = out
